@@ -153,7 +153,7 @@ func decimalText(v any) (string, bool) {
 	return s, true
 }
 
-func (p *c15) NumCases() int { return len(p.dom) + 2 }
+func (p *c15) NumCases() int { return len(p.dom) + 3 }
 
 func show(v any) string { return fmt.Sprintf("%T(%v)", v, v) }
 
@@ -161,6 +161,8 @@ func (p *c15) Describe(i int) any {
 	switch i - len(p.dom) {
 	case 0:
 		return map[string]any{"kind": "purity: Compare evaluated on every pair of the domain (extended by same-valued numbers of different Go types whose %v texts differ) in three different orders must return the same value each time"}
+	case 2:
+		return map[string]any{"kind": "the comparison depends on its two values only: 4 queries x every ordered pair of (two values before, two values after) over 7 mixed values, changed in place between two executions of one query; the second execution must equal a fresh query"}
 	case 1:
 		return map[string]any{"kind": "the comparison used by ORDER BY and WHERE: every permutation of 5 mixed numbers / numeric-looking strings sorted ASC and DESC, and every WHERE v <op> x, must agree with Compare's order"}
 	}
@@ -191,6 +193,10 @@ func (p *c15) RunCase(i int) *core.CaseResult {
 		return p.runPurity()
 	case 1:
 		return p.runSQL()
+	case 2:
+		r := &core.CaseResult{}
+		runChangedC15(r)
+		return r
 	}
 	r := &core.CaseResult{Nontrivial: true}
 	n := len(p.dom)
